@@ -355,14 +355,22 @@ class Scheduler:
 
     # ------------------------------------------------------------------ driver API (main thread)
     def settle(self):
-        """Return when no other thread is runnable at the current virtual time."""
+        """Return when no other thread is runnable at the current virtual time (threads held back by wake_lag count as
+        runnable: time advances until they ran)."""
         me = self.me()
-        me.idle_wait = True
-        me.ready_seq = next(self._rseq)
-        try:
-            self._switch(me)
-        finally:
-            me.idle_wait = False
+        while True:
+            me.idle_wait = True
+            me.ready_seq = next(self._rseq)
+            try:
+                self._switch(me)
+            finally:
+                me.idle_wait = False
+            if self.wake_lag is None:
+                return
+            lagging = [t.deadline for t in self.threads if t.state == BLOCKED and t.wait_obj == ("lag",) and t.deadline is not None]
+            if not lagging:
+                return
+            self.block(("settle-lag",), max(0.0, min(lagging) - self.now))
 
     def sleep(self, dt):
         self.block(("sleep", dt), dt)
@@ -717,13 +725,12 @@ class Timer(Thread):
             self.function(*self.targs, **self.tkwargs)
 
     def is_alive(self):
-        if self.cancelled:
-            return False
         if not self.started:
             return False
-        if not self.fired:
-            return True
-        return self._sim is not None and self._sim.state != DONE
+        if self.fired:
+            # cancel() after the timer fired does not end the thread: it is alive until its function returns
+            return self._sim is not None and self._sim.state != DONE
+        return not self.cancelled
 
     def join(self, timeout=None):
         s = cur_sched()
